@@ -59,7 +59,7 @@ static void run_vec(Ctx& ctx, const Item& it, bool thorough) {
     if (N <= 32) { for (int64_t p = 0; p < (int64_t)(2 * N); ++p) if (op.model == 'r' || (p & 1)) ps.push_back(p); ps.push_back(-3); ps.push_back((int64_t)(6 * N + 1)); }
     else ps = {1, (int64_t)N - 1, (int64_t)N + 1, (int64_t)(2 * N - 1), 5, -3};
   }
-  std::vector<int> aliases = op.nin == 1 ? std::vector<int>{AL_RES_A} : std::vector<int>{AL_RES_A, AL_RES_B, AL_RES_A_B};
+  std::vector<int> aliases = op.nin == 1 ? std::vector<int>{AL_RES_A, AL_RES_A_COMPACT} : std::vector<int>{AL_RES_A, AL_RES_B, AL_RES_A_B, AL_RES_A_COMPACT};
   std::vector<uint64_t> strides = {N, N + 3};
   std::set<std::string> seen;
   for (int al : aliases)
@@ -69,6 +69,7 @@ static void run_vec(Ctx& ctx, const Item& it, bool thorough) {
         // aliased operands share `sl`; the other operand uses `osl`
         s.rsl = sl;
         s.asl = (al == AL_RES_A || al == AL_RES_A_B) ? sl : osl;
+        if (al == AL_RES_A_COMPACT) { s.rsl = N; s.asl = 2 * N + (sl == N ? 0 : 3); }
         s.bsl = (al == AL_RES_B || al == AL_RES_A_B) ? sl : osl;
         if (op.nin < 2 && osl != strides[0]) continue;
         if (al == AL_RES_A_B && osl != strides[0]) continue;
